@@ -5,6 +5,7 @@ import vlib
 META = {
     "property_id": "C11",
     "level": "proof",
+    "coq_targets": ["BitSetJudge.vo"],
     "technique": "Coq theorems over an executable N-model of bit_set.go (all widths, all argument lists, all op sequences) + in-kernel correspondence of model, abstract spec and real BitSet on generated op sequences and the 8-bit sweep",
     "design_ref": "DESIGN.md §4 C11",
     "level_text": "Proof: BitSetProofs.v shows, for every N (hence every flag width incl. bit 63), every argument list and every operation sequence, that the model of set/bit_set.go computes exactly union / difference / intersection / subset tests and that Add/Remove return true iff the stored bits changed, and that a multi-argument call equals one-at-a-time calls (Props/C11.v, closed under the global context). The model is tied to the current source by running the real generic BitSet over uint8/16/32/64/uint on generated sequences and the exhaustive 8-bit (set, flag) sweep and judging every observation inside Coq against both the model and the abstract spec.",
